@@ -30,22 +30,35 @@ type caseD struct {
 }
 
 var dNo int
+var engD *gw.InProc
+var scDir string
 
 func runD(c caseD) error {
 	if err := setup(); err != nil {
 		return fmt.Errorf("SETUP: %v", err)
 	}
-	if engSS[true] == nil {
-		ne, err := gw.StartInProc(gw.Config{SB: sb, Versioning: true, Sidecar: true})
+	if engD == nil {
+		// the sidecar world of this layer keeps its metadata in a directory of its own, three levels below the area
+		// and given to the gateway the way shell completion leaves it (trailing slash): whatever DeleteBucket prunes,
+		// that directory and the ones above it are not the bucket's
+		scDir = filepath.Join(sb.Area, "scn", "a", "b", "store")
+		if err := os.MkdirAll(scDir, 0o755); err != nil {
+			return fmt.Errorf("SETUP: %v", err)
+		}
+		ne, err := gw.StartInProc(gw.Config{SB: sb, Versioning: true, Sidecar: true, SidecarDir: scDir + "/"})
 		if err != nil {
 			return fmt.Errorf("SETUP: sidecar engine: %v", err)
 		}
-		engSS[true] = ne
+		engD = ne
 	}
 	if engSS[false] == nil {
 		engSS[false] = eng
 	}
-	cl := s3c.NewClient(engSS[c.Sidecar], gw.DefaultRoot)
+	e := engSS[false]
+	if c.Sidecar {
+		e = engD
+	}
+	cl := s3c.NewClient(e, gw.DefaultRoot)
 	dNo++
 	b := fmt.Sprintf("del-%d", dNo)
 	if r := cl.MustCall("PUT", "/"+b, nil, nil, nil); !r.OK() {
@@ -54,7 +67,7 @@ func runD(c caseD) error {
 	defer func() {
 		os.RemoveAll(filepath.Join(sb.Root, b))
 		os.RemoveAll(filepath.Join(sb.Ver, b))
-		os.RemoveAll(filepath.Join(sb.Sidecar, b))
+		os.RemoveAll(filepath.Join(scDir, b))
 	}()
 	var present []string
 	for _, k := range c.Objects {
@@ -91,6 +104,13 @@ func runD(c caseD) error {
 		}
 		if r.Status != 204 {
 			return fmt.Errorf("%s: DeleteBucket of the emptied bucket answers %d %s (plain directories planted: %v)", where, r.Status, r.Code(), c.Plain)
+		}
+		if c.Sidecar {
+			for d := scDir; d != sb.Area; d = filepath.Dir(d) {
+				if _, err := os.Stat(d); err != nil {
+					return fmt.Errorf("%s: DeleteBucket (204) removed %s, a directory of the metadata store's path (--sidecar %s/), not of the bucket: %v", where, strings.TrimPrefix(d, sb.Area+"/"), strings.TrimPrefix(scDir, sb.Area+"/"), err)
+				}
+			}
 		}
 		return nil
 	}
